@@ -588,6 +588,8 @@ class IfaceExecutor(X.UnitsExecutor):
                 v = st.obj(v.ref).data
             if isinstance(v, VSeq) and self.concrete_items(st, v) is None:
                 sample = v.elem(K)
+                if isinstance(sample, VSeq):
+                    return self._max_of_rows(st, v, kwargs, node)
                 if not isinstance(sample, VInt):
                     raise Unsupported(f"{self.loc(node)} max over a symbolic sequence of non-integers")
                 lam = z3.Lambda([K], ops.int_term(sample))
@@ -601,6 +603,31 @@ class IfaceExecutor(X.UnitsExecutor):
                     return []
                 return [(s2, VInt(SEQMAX(lam, v.length, z3.IntVal(0))))]
         return super()._minmax(st, args, kwargs, node, is_min)
+
+    def _max_of_rows(self, st, v, kwargs, node):
+        """max(<symbolic sequence of rows>[, key=len][, default=d]): the result is ONE OF the rows (row k for a fresh k).
+        key=len: exactly a longest row (len == seq_max of the lengths).  Without a key Python compares rows lexicographically:
+        WHICH row wins is not modelled -> the path is over-approximated (marker OVER: a `sat` there is confirmed natively first)."""
+        key = kwargs.get("key")
+        if set(kwargs) - {"key", "default"} or (key is not None and not (isinstance(key, VFunc) and key.how == "builtin" and key.a == "len")):
+            raise Unsupported(f"{self.loc(node)} max over rows with key={key!r}")
+        out = []
+        s0 = st.fork().assume(v.length <= 0)
+        if "default" in kwargs:
+            out.append((s0, kwargs["default"]))
+        else:
+            self.raise_in(s0, self.mk_exc("ValueError"))
+        s1 = st.fork().assume(v.length > 0)
+        k = z3.Int(fresh_name("argmax"))
+        s1.assume(z3.And(k >= 0, k < v.length))
+        row = v.elem(k)
+        if key is not None:
+            lam = z3.Lambda([K], v.elem(K).length)
+            s1.assume(row.length == SEQMAX(lam, v.length, z3.IntVal(0)))
+        else:
+            s1.assume(OVER)
+        out.append((s1, row))
+        return out
 
     # ---------------------------------------------------------------- floats --
     # float values that come from text are abstract (`Float`): +-inf and nan are possible, so round()/int() may raise
@@ -706,6 +733,38 @@ def new_bytesio(ex, st, args, kwargs, node):
     return [(st, b)]
 
 
+REST = fun("bytes_from", BYTES, I, BYTES)          # b[p:] -- what read() returns from position p
+
+
+def rest_facts(c, p):
+    """Defining facts of b[p:] used by proofs AND counterexamples (quantifier free, instantiated at the one application):
+    the whole buffer from 0, nothing from the end on, len(b) - p bytes in between."""
+    r = REST(c, p)
+    n = BLEN(c)
+    return z3.And(z3.Implies(p <= 0, r == c), z3.Implies(p >= n, r == EMPTY), BLEN(r) == z3.If(p >= n, 0, n - z3.If(p < 0, 0, p)), BLEN(EMPTY) == 0)
+
+
+def m_bio_read(ex, st, obj, args, kwargs, node):
+    """BytesIO.read([size]) -- ASSUMED: without a size (None / negative) the bytes from the CURRENT position to the end; the stream is
+    left at the end.  A stream that was not rewound yields a suffix, not the payload.  read(n): some bytes (as before)."""
+    if kwargs or len(args) > 1 or (args and not (isinstance(args[0], VNoneT) or (isinstance(args[0], VInt) and z3.is_int_value(ops.int_term(args[0]))
+                                                                                 and ops.int_term(args[0]).as_long() < 0))):
+        return common.m_read(ex, st, obj, args, kwargs, node)
+    pos = common.bytesio_pos(st, obj)
+    c = CONTENT(obj.t)
+    st.assume(BLEN(c) >= 0)
+    st.assume(rest_facts(c, pos))
+    out = VExt("Bytes", REST(c, pos))
+    st.ghost[common.pos_key(obj)] = z3.If(pos >= BLEN(c), pos, BLEN(c))
+    return [(st, out)]
+
+
+def m_bio_getvalue(ex, st, obj, args, kwargs, node):
+    """BytesIO.getvalue() -- ASSUMED: the whole buffer, position untouched."""
+    st.assume(BLEN(CONTENT(obj.t)) >= 0)
+    return [(st, VExt("Bytes", CONTENT(obj.t)))]
+
+
 def install_pydict(reg):
     """dict values of well-typed fields (List[Dict[str, Any]]): keys()/values()/items()/get() are total."""
     D = ext_sort("PyDict")
@@ -733,6 +792,8 @@ def install(reg):
     register_refuter()
     install_pydict(reg)
     common.install_bytesio(reg)
+    reg.method_models[("BytesIO", "read")] = m_bio_read              # pack-local refinement of common.m_read (content + position)
+    reg.method_models[("BytesIO", "getvalue")] = m_bio_getvalue
     reg.ext_models["io.BytesIO"] = new_bytesio
     reg.ext_models[("new", "BytesIO")] = new_bytesio
     reg.ext_models[("new", "io.BytesIO")] = new_bytesio
